@@ -475,7 +475,7 @@ func c20LastSplit(v sxVal, seps ...string) (call *sxCallRec) {
 // c20Paths: unexported helpers are executed in place; exported API (the
 // validators, ParseReference, Digest) stays summarised.
 func c20Paths(fn *ssa.Function) *sxResult {
-	return sxPathsInline(fn, "c20", func(g *ssa.Function) bool { return !token.IsExported(g.Name()) })
+	return sxPathsInline(fn, "c20", sxHelper)
 }
 
 // c20FirstSep: what precedes the '@' of a returned digest reference is
